@@ -70,9 +70,12 @@ def wire (fl : Flags) (pre : Bool) (caps : List Bytes) (u : Unpack) (refs : List
   let names := refs.map (·.1) ++ cmds.map (·.name)
   let raised := match o.raised with | some e => e.toString | none => "-"
   let status := join "," (o.status.map (fun p => s!"{hex p.1}:{hex p.2}"))
-  let (report, parsed) := match h.report with
-    | some l => (showLines l, showParsed (clientParse l))
-    | none => ("none", "none")
+  let report := match h.report with
+    | some l => if h.fatal then "-" else showLines l    -- after a fatal packet nothing reaches the parser
+    | none => "none"
+  let parsed := match clientTail h with
+    | some r => showParsed r
+    | none => "none"
   let instore := join "," (cmds.map (fun c => showBool (o.srv.store c.new)))
   s!"raised={raised} status={status} refs={showRefs o.srv.refs names} report={report} parsed={parsed} instore={instore}"
 
